@@ -99,7 +99,7 @@ Proof.
     + destruct bs as [|b2 bs']; [discriminate|].
       change (meet_scan A M sz el startb endb i (f :: f2 :: fs') (b :: b2 :: bs') best)
         with (meet_scan A M sz el startb endb (i + 1) (f2 :: fs') (b2 :: bs')
-                        (meet_col A M sz (tiebreak A startb endb i) i f b best)).
+                        (meet_col A M (i =? 0) (tiebreak A startb endb i) i f b best)).
       apply IH; [|lia|cbn [length] in *; lia|exact Hb].
       apply meet_col_ok; [exact H|cbn [length] in Hl; lia].
 Qed.
